@@ -1,9 +1,15 @@
 (* Property C07 - TWKB decode(encode(g,p)) is g rounded to p places; its headers tell the truth.
-   Statements only; proofs are in Base/Varint.v and Proofs/TWKB_proofs.v. *)
+   Statements only; proofs are in Base/Varint.v, Proofs/TWKB_proofs.v, Proofs/TWKBQuant_proofs.v.
+   The theorems are about the Gallina model Model/TWKB.v (integer layer: ordinates are the already
+   quantised int64 values) of geom/twkb_write.go and geom/twkb_parser.go with the repairs
+   fixes/F5 F6 F7 F15 F16 F17 F18 F31 F70 F71 applied.  The float <-> integer step (Model/TWKBQuant.v) is
+   tied to the implementation bit for bit by the correspondence run, not by a theorem. *)
 From Coq Require Import NArith ZArith List Bool.
-From SF Require Import Base.Outcome Base.Bytes Base.GeomAST Base.Varint Model.TWKB Proofs.TWKB_proofs.
+From SF Require Import Base.Outcome Base.Bytes Base.GeomAST Base.Varint Model.TWKB Model.TWKBQuant
+                       Proofs.TWKB_proofs Proofs.TWKBQuant_proofs.
 Import ListNotations.
 
+(* ------------------------------------------------------------------ varints *)
 (* LEB128: every uint64 survives, whatever follows it *)
 Theorem uvarint_roundtrip : forall (x : N) (rest : list N),
   (x < two64N)%N -> uv_dec (uv_enc x ++ rest) = VOk x rest.
@@ -19,3 +25,188 @@ Theorem svarint_roundtrip : forall (x : Z) (rest : list N),
   in_i64 x -> sv_dec (sv_enc x ++ rest) = SOk x rest.
 Proof. exact svarint_roundtrip_lemma. Qed.
 Print Assumptions svarint_roundtrip.
+
+(* delta coding is exact in wrapping int64 arithmetic: ref + (v - ref) = v *)
+Theorem delta_wrap_exact : forall v r : Z, in_i64 v -> wrap64 (r + wrap64 (v - r)) = v.
+Proof. exact wrap64_delta. Qed.
+Print Assumptions delta_wrap_exact.
+
+(* ------------------------------------------------------------------ round trip *)
+(* For every geometry of the domain wf_twkb (all 7 types, all 4 coordinate types, arbitrary
+   nesting, empty members anywhere, every int64 ordinate) and every admissible option set
+   (precXY -8..7, precZ/M 0..7, every subset of size/bbox/ids/closeRings), MarshalTWKB succeeds and
+   UnmarshalTWKB of its output returns exactly the tolerated image of the input together with the
+   header facts the property promises (kind, precisions, coordinate type, size = number of bytes,
+   bounding box = envelope and Z/M ranges, ID list verbatim).  The proof is an induction over
+   nested geometries; the running reference point, the bounding-box accumulator and the sub-writer /
+   sub-parser per collection member are threaded through it.
+   Visible hypotheses: wf_twkb (ring closure after rounding: finding F19; ordinates within int64:
+   F18; no empty Point inside a non-empty MultiPoint: F5; counts below 2^63) and the document
+   being shorter than 2^63 bytes (a Go slice always is). *)
+Theorem twkb_roundtrip : forall (o : topts) (g : zgeom),
+  wf_twkb o g = true ->
+  exists b, tmarshal o g = Ok b /\
+    ((Z.of_nat (length b) < two63)%Z ->
+     tdec b = Ok (tolerated g, expected_info o g (length b))).
+Proof. exact twkb_roundtrip_lemma. Qed.
+Print Assumptions twkb_roundtrip.
+
+(* the executable statement S that the driver evaluates on the IMPLEMENTATION's bytes (twkb_ok:
+   decodes, to the tolerated image, with the expected header facts) is true of the model's bytes *)
+Theorem twkb_ok_model : forall (o : topts) (g : zgeom) (b : list N),
+  wf_twkb o g = true -> tmarshal o g = Ok b -> (Z.of_nat (length b) < two63)%Z -> twkb_ok o g b = true.
+Proof. exact twkb_ok_model_lemma. Qed.
+Print Assumptions twkb_ok_model.
+
+(* ------------------------------------------------------------------ headers *)
+(* size header: UnmarshalTWKBSize returns the number of bytes of the whole document *)
+Theorem twkb_size_header : forall (o : topts) (g : zgeom) (b : list N),
+  wf_twkb o g = true -> tmarshal o g = Ok b -> (Z.of_nat (length b) < two63)%Z ->
+  o_size o = true -> is_empty g = false -> tread_size b = Ok (Some (Z.of_nat (length b))).
+Proof. exact twkb_size_header_lemma. Qed.
+Print Assumptions twkb_size_header.
+
+(* bounding-box header: UnmarshalTWKBEnvelope returns, per dimension, the minimum and maximum
+   over all vertices of g (also for collections: fix F6) *)
+Theorem twkb_bbox_header : forall (o : topts) (g : zgeom) (b : list N),
+  wf_twkb o g = true -> tmarshal o g = Ok b -> (Z.of_nat (length b) < two63)%Z ->
+  o_bbox o = true -> is_empty g = false ->
+  exists mm, env_of (geom_pts g) = Some mm /\ tread_env b = Ok (Some (geom_ct g, mm)).
+Proof. exact twkb_bbox_header_lemma. Qed.
+Print Assumptions twkb_bbox_header.
+
+(* all three header-only readers on the writer's output: size, envelope, ID list verbatim *)
+Theorem twkb_headers : forall (o : topts) (g : zgeom) (b : list N),
+  wf_twkb o g = true -> tmarshal o g = Ok b -> (Z.of_nat (length b) < two63)%Z ->
+  let i := expected_info o g (length b) in
+  tread_size b = Ok (i_size i) /\ tread_env b = env_view i /\
+  (is_empty g = false ->
+   match g with GMPoint _ _ | GMLine _ _ | GMPoly _ _ | GColl _ _ => True | _ => False end ->
+   tread_ids b = Ok (i_ids i)).
+Proof. exact twkb_headers_lemma. Qed.
+Print Assumptions twkb_headers.
+
+(* for EVERY byte string that decodes: the header-only readers agree with the full decode *)
+Theorem twkb_header_readers_agree : forall (b : list N) (g : zgeom) (i : tinfo),
+  tdec b = Ok (g, i) ->
+  tread_size b = Ok (i_size i) /\ tread_env b = env_view i /\
+  (i_empty i = false -> (4 <= i_kind i)%N -> tread_ids b = Ok (i_ids i)).
+Proof. exact twkb_header_readers_agree_lemma. Qed.
+Print Assumptions twkb_header_readers_agree.
+
+(* ------------------------------------------------------------------ rejection *)
+(* out-of-range precisions, an ID list of the wrong length, and an ID list on a type that cannot
+   carry one (fix F15) are refused *)
+Theorem twkb_rejects : forall (o : topts) (g : zgeom),
+  must_reject o g = true -> exists e, tmarshal o g = Err e.
+Proof. exact twkb_rejects_lemma. Qed.
+Print Assumptions twkb_rejects.
+
+(* ------------------------------------------------------------------ used by C08 *)
+(* The TWKB parser is total on arbitrary bytes: it never panics, never stops for lack of fuel
+   (so the model's Err is a genuine error return of the code), and the bytes it requests through
+   count-sized make() calls (parsePointArray's []float64, parseIDList's []int64; with fix F7) are
+   bounded by 8 bytes per input byte.  Proved once for every ordinate carrier (dec_full_total)
+   and instantiated for the integer layer (tdec) and for UnmarshalTWKB itself (unmarshal_f). *)
+Theorem tdec_no_panic : forall (bs : list N) (p : panicc), tdec bs <> Panic p.
+Proof. exact tdec_no_panic_lemma. Qed.
+Print Assumptions tdec_no_panic.
+
+Theorem tdec_fuel_enough : forall bs : list N, tdec bs <> Err EFuel.
+Proof. exact tdec_fuel_enough_lemma. Qed.
+Print Assumptions tdec_fuel_enough.
+
+Theorem tdec_alloc_linear : forall bs : list N, (tdec_alloc bs <= 8 * N.of_nat (length bs))%N.
+Proof. exact tdec_alloc_linear_lemma. Qed.
+Print Assumptions tdec_alloc_linear.
+
+Theorem unmarshal_f_no_panic : forall (bs : list N) (p : panicc), unmarshal_f bs <> Panic p.
+Proof. exact unmarshal_f_no_panic_lemma. Qed.
+Print Assumptions unmarshal_f_no_panic.
+
+Theorem unmarshal_f_fuel_enough : forall bs : list N, unmarshal_f bs <> Err EFuel.
+Proof. exact unmarshal_f_fuel_enough_lemma. Qed.
+Print Assumptions unmarshal_f_fuel_enough.
+
+Theorem unmarshal_f_alloc_linear : forall bs : list N,
+  (match dec_full N 0%N N.eqb dequant bs with TOk _ s => s_alloc s | TErr _ a => a | TPanic _ a => a end
+   <= 8 * N.of_nat (length bs))%N.
+Proof. exact unmarshal_f_alloc_linear_lemma. Qed.
+Print Assumptions unmarshal_f_alloc_linear.
+
+(* ------------------------------------------------------------------ examples *)
+Local Open Scope Z_scope.
+Definition v4 x y z m : vtx Z := Build_vtx x y z m.
+Definition sq (x y : Z) : lineT Z :=
+  MkLine XYZM [v4 x y 1 (-2); v4 (x + 10) y 3 4; v4 (x + 10) (y + 10) 5 6; v4 x (y + 10) 7 8; v4 x y 1 (-2)].
+(* a depth-3 XYZM collection: empty members of five types at several positions, a MultiPolygon
+   with an empty member, a polygon with a hole, a huge and a negative ordinate *)
+Definition ex_geom : zgeom :=
+  GColl XYZM [ GPoint (MkPoint XYZM None);
+               GPoint (MkPoint XYZM (Some (v4 9223372036854775807 (-9223372036854775808) 0 5)));
+               GMPoint XYZM [MkPoint XYZM (Some (v4 1 2 3 4)); MkPoint XYZM (Some (v4 (-5) 6 7 8))];
+               GColl XYZM [ GLine (MkLine XYZM []);
+                            GPoly (MkPoly XYZM [sq 0 0; MkLine XYZM [v4 2 2 0 0; v4 3 2 0 0; v4 3 3 0 0; v4 2 2 0 0]]);
+                            GColl XYZM []; GMLine XYZM [MkLine XYZM []; MkLine XYZM [v4 1 1 1 1; v4 2 2 2 2]] ];
+               GMPoly XYZM [MkPoly XYZM []; MkPoly XYZM [sq 100 100]] ].
+Definition ex_opts : topts :=
+  {| o_pxy := -3; o_pz := Some 7; o_pm := Some 0; o_size := true; o_bbox := true; o_close := false;
+     o_ids := [5; -6; 9223372036854775807; 0; -9223372036854775808] |}.
+(* the hypotheses of twkb_roundtrip are satisfiable by a non-trivial value ... *)
+Example wf_example : wf_twkb ex_opts ex_geom = true.
+Proof. vm_compute. reflexivity. Qed.
+(* ... and on it the executable statement holds by computation as well *)
+Example roundtrip_example :
+  match tmarshal ex_opts ex_geom with Ok b => twkb_ok ex_opts ex_geom b | _ => false end = true.
+Proof. vm_compute. reflexivity. Qed.
+
+Definition o0 : topts :=
+  {| o_pxy := 0; o_pz := None; o_pm := None; o_size := false; o_bbox := false; o_close := false; o_ids := [] |}.
+Definition v2 x y : vtx Z := Build_vtx x y 0 0.
+
+(* F19: the ring hypothesis is tight.  POLYGON((0 0,10 0,10 10,0.4 0.4,0 0)) at precision 0 is the
+   integer ring below; it is outside wf_twkb only because of ring_dom, and the decoded ring has
+   lost a vertex *)
+Definition f19_geom : zgeom := GPoly (MkPoly XY [MkLine XY [v2 0 0; v2 10 0; v2 10 10; v2 0 0; v2 0 0]]).
+Example f19_outside_domain : wf_twkb o0 f19_geom = false /\ wf_twkb_noring o0 f19_geom = true.
+Proof. vm_compute. split; reflexivity. Qed.
+Example f19_ring_hypothesis_tight :
+  match tmarshal o0 f19_geom with Ok b => twkb_ok o0 f19_geom b | _ => true end = false.
+Proof. vm_compute. reflexivity. Qed.
+(* with TWKBCloseRings the same ring is inside the domain and survives *)
+Example f19_close_rings_ok :
+  let o := {| o_pxy := 0; o_pz := None; o_pm := None; o_size := false; o_bbox := false;
+              o_close := true; o_ids := [] |} in
+  wf_twkb o f19_geom = true.
+Proof. vm_compute. reflexivity. Qed.
+
+(* F18: the int64 hypothesis is tight: 2^63 is refused (before the repair: silent garbage) *)
+Example i64_hypothesis_tight :
+  tmarshal o0 (GPoint (MkPoint XY (Some (v2 9223372036854775808 0)))) = Err EOther.
+Proof. vm_compute. reflexivity. Qed.
+
+(* F5: an empty Point inside a non-empty MultiPoint is outside the domain and is refused *)
+Definition f5_geom : zgeom := GMPoint XY [MkPoint XY None; MkPoint XY (Some (v2 1 2))].
+Example f5_refused : wf_twkb o0 f5_geom = false /\ tmarshal o0 f5_geom = Err EOther.
+Proof. vm_compute. split; reflexivity. Qed.
+
+(* F16/F17: Z survives an empty sibling (the round trip theorem covers it; here by computation) *)
+Example f17_z_survives :
+  let g := GColl XYZ [GPoint (MkPoint XYZ (Some (Build_vtx 1 2 3 0))); GLine (MkLine XYZ [])] in
+  match tmarshal o0 g with Ok b => tdec b | _ => Err EOther end =
+  Ok (g, expected_info o0 g 12).
+Proof. vm_compute. reflexivity. Qed.
+
+(* F7 witness: a LineString announcing 2^62 points is an error, not a panic, and allocates nothing *)
+Example f7_witness :
+  tdec [2; 0; 255; 255; 255; 255; 255; 255; 255; 255; 63]%N = Err EEOF /\
+  tdec_alloc [2; 0; 255; 255; 255; 255; 255; 255; 255; 255; 63]%N = 0%N.
+Proof. vm_compute. split; reflexivity. Qed.
+
+(* rejection is not vacuous *)
+Example rejects_example :
+  must_reject {| o_pxy := 8; o_pz := None; o_pm := None; o_size := false; o_bbox := false;
+                 o_close := false; o_ids := [] |} f5_geom = true /\
+  must_reject {| o_pxy := 0; o_pz := None; o_pm := None; o_size := false; o_bbox := false;
+                 o_close := false; o_ids := [7] |} (GPoint (MkPoint XY (Some (v2 1 2)))) = true.
+Proof. vm_compute. split; reflexivity. Qed.
